@@ -179,10 +179,23 @@ inline int cutoff() {
 
 // LAPACK permutation of given length over dimension dimn: P[i] in [i, dimn)
 inline std::string lapack_perm(int len, int dimn, std::vector<int> *out = nullptr) {
-  int kind = rng(0, 5);
+  int kind = rng(0, 7);
   std::vector<int> P(len);
   for (int i = 0; i < len; i++) P[i] = i;
-  if (kind == 0) {
+  if (kind == 6 && dimn >= 4) {
+    // structured: two runs of columns / rows exchanged in order (what a factorisation's pivot bookkeeping produces): start
+    // positions on word boundaries or anywhere, run lengths around a word
+    int t = wpick<int>({{3, pick<int>({62, 63, 64, 65})}, {2, rng(1, 70)}});
+    t = std::max(1, std::min(t, dimn / 2));
+    int a = coin(1, 2) ? 64 * rng(0, std::max(0, (dimn - 2 * t) / 64)) : rng(0, dimn - 2 * t);
+    int bmin = a + t, bmax = dimn - t;
+    int b = coin(1, 2) ? std::min(bmax, std::max(bmin, 64 * rng((bmin + 63) / 64, std::max((bmin + 63) / 64, bmax / 64)))) : rng(bmin, bmax);
+    for (int j = 0; j < t && a + j < len; j++) P[a + j] = b + j;
+  } else if (kind == 7 && dimn >= 2) {
+    // structured: every entry fetches from a fixed distance (a rotation written as a swap sequence)
+    int d = std::min(dimn - 1, pick<int>({1, 63, 64, 65, rng(1, std::max(1, dimn - 1))}));
+    for (int i = 0; i < len && i + d < dimn; i++) P[i] = i + d;
+  } else if (kind == 0) {
   } else if (kind == 1 && len > 0) {
     int i = rng(0, len - 1);
     P[i] = rng(i, dimn - 1);
